@@ -231,6 +231,19 @@ CLAIMED: dict[str, tuple[str, str, str, str, str]] = {
         "guard truth tables + def-before-use/dominance on the CFG + dataflow-framework obligations (shared with C09)",
         "DESIGN §5 C08",
     ),
+    "C06": (
+        "other",
+        "Decides the decision points and traversals of the linearity checker: truth tables of every raise condition "
+        "(NotOwned, AlreadyUsed within a block, discarded expression value, used-and-still-live and unused-and-not-live across "
+        "blocks) over copyable/droppable/used/live flags with unknown guards quantified universally; `used_later` = live before "
+        "every successor on all small cases; every call-node kind visits its arguments and hands borrows back on every path; "
+        "statements and branch predicates of every block are traversed; check_cfg always runs the linearity check and returns "
+        "its result; the borrow-shadow check covers every place in an assignment target. Soundness/completeness of the "
+        "place-based liveness argument as a whole is not decided.",
+        "Trusted: ast parser; lexical guard extraction (if/elif/else, early exits, walrus) as the exact condition for reaching a raise.",
+        "guard truth tables + must-call pairing on the CFG + sibling traversal + small-case abstract evaluation",
+        "DESIGN §5 C06",
+    ),
 }
 
 NOT_APPLICABLE: dict[str, str] = {
